@@ -67,6 +67,8 @@ class Folder:
         if k == "MemberExpr":
             if e.member == "style" and "style" in self.env:
                 return self.env["style"]
+            if e.member == "length" and "scalar" in e.text() and isinstance(self.env.get("subject"), str):
+                return len(self.env["subject"])        # yaml_node_t.data.scalar.length of the scalar under test
             raise Unknown("member `%s`" % e.text())
         if k == "ArraySubscriptExpr":
             s, i = self.ev(e.kids[0]), self.ev(e.kids[1])
